@@ -28,22 +28,24 @@ PY = {"int": "int", "float": "float", "str": "str", "bool": "bool", "datetime": 
 DEFAULTS = {"uuid": "None", "int": "0", "float": "0.0", "str": "''", "bool": "False", "datetime": "datetime.datetime(2020, 1, 1)", "enum": "Color.RED"}
 
 
-def annotation(t, names) -> str:
+def annotation(t, names, quote: bool = False) -> str:
+    """quote: class references are written as quoted forward references (modules without the future import)"""
     k = t["k"]
+    q = '"' if quote else ""
     if k in PY:
         return PY[k]
     if k == "opt":
-        return f"Optional[{annotation(t['of'], names)}]"
+        return f"Optional[{annotation(t['of'], names, quote)}]"
     if k == "list":
-        return f"List[{annotation(t['of'], names)}]"
+        return f"List[{annotation(t['of'], names, quote)}]"
     if k == "set":
-        return f"Set[{annotation(t['of'], names)}]"
+        return f"Set[{annotation(t['of'], names, quote)}]"
     if k == "seq":
-        return f"Sequence[{annotation(t['of'], names)}]"
+        return f"Sequence[{annotation(t['of'], names, quote)}]"
     if k == "ref":
-        return names[t["c"]]
+        return f"{q}{names[t['c']]}{q}"
     if k == "type":
-        return f"Type[{names[t['c']]}]"
+        return f"Type[{q}{names[t['c']]}{q}]"
     if k == "ext":
         return "Outside"
     if k == "alt":
@@ -68,8 +70,9 @@ def default_of(t) -> str:
 
 def render(ir, module_name: str, eq: bool = True) -> str:
     names = [c["name"] for c in ir["classes"]]
+    future = ir.get("future", True)
     lines = [
-        "from __future__ import annotations",
+        "from __future__ import annotations" if future else "# annotations are evaluated: class references are quoted",
         "import datetime, enum, uuid",
         "from dataclasses import dataclass, field",
         "from typing_extensions import List, Optional, Set, Sequence, Type",
@@ -92,7 +95,7 @@ def render(ir, module_name: str, eq: bool = True) -> str:
         if not c["fields"]:
             lines.append("    pass")
         for f in c["fields"]:
-            lines.append(f"    {f['name']}: {annotation(f['t'], names)} = {default_of(f['t'])}")
+            lines.append(f"    {f['name']}: {annotation(f['t'], names, quote=not future)} = {default_of(f['t'])}")
         lines.append("")
     return "\n".join(lines)
 
@@ -152,7 +155,7 @@ def load(ir, scratch_dir: Optional[str] = None, eq: bool = True, prefix="kvmodel
         mod = types.ModuleType(name)
         mod.__dict__["__name__"] = name
         sys.modules[name] = mod
-        exec(compile(src, f"<{name}>", "exec"), mod.__dict__)
+        exec(compile(src, f"<{name}>", "exec", dont_inherit=True), mod.__dict__)  # not this module's future flags
     else:
         path = os.path.join(scratch_dir, name + ".py")
         with open(path, "w") as fh:
